@@ -137,7 +137,7 @@ var (
 	ciphChoices  = []string{"", "", "gcm128", "cbcgcm", "cbcgcm", "cbc"}
 	cliChoices   = []string{"", "", "", "request", "require", "require", "ca1", "ca2", "vig1"}
 
-	sniAlphabet = []string{"a.test", "a.test.ext", "w.test.ext", "A.Test", "b.a.test", "c.a.test", "c.b.a.test", "x.test", "X.TEST", "w.test", "y.w.test", "z.y.w.test", "localhost", "stray.example", "test", ""}
+	sniAlphabet = []string{"a.test", "[a.test]", "a.test.ext", "w.test.ext", "A.Test", "b.a.test", "c.a.test", "c.b.a.test", "x.test", "X.TEST", "w.test", "y.w.test", "z.y.w.test", "localhost", "stray.example", "test", ""}
 	hostHeaders = []string{"a.test", "a.test.ext", "w.test.ext", "b.a.test", "c.a.test", "x.test", "w.test", "y.w.test", "localhost", "stray.example", "127.0.0.1", ""}
 
 	versionOffers = [][2]uint16{
@@ -719,7 +719,9 @@ loop:
 			c.Count("http_requests", 1)
 			ob := httpObs{Host: h, Path: p, Status: rsp.Status, Marker: rsp.Marker}
 			out.HTTP = append(out.HTTP, ob)
-			mismatch := sni != "" && strings.ToLower(sni) != hostOnly(h)
+			// (a bracketed name is compared with and without its brackets: "[a.test]" sent
+			// as SNI and as Host do agree)
+			mismatch := sni != "" && strings.ToLower(sni) != hostOnly(h) && strings.ToLower(sni) != "["+hostOnly(h)+"]"
 			if rsp.Marker != "" {
 				c.Count("http_served_by_a_site", 1)
 				var si, xi int
